@@ -364,6 +364,7 @@ def read (bs : Bytes) : Option Module := do
   let tab := 192 + ordnum + 4 * insnum
   if tab + 4 * smpnum + 4 * patnum > bs.length then none
   let ords := (bs.drop 192).take olen
+  if !(S3m.startsAtPattern patnum ords) then none   -- `libxmp_scan_sequences` refuses such songs
   let ppSmp := decodeN 4 rd32le smpnum (bs.drop tab)
   let ppPat := decodeN 4 rd32le patnum (bs.drop (tab + 4 * smpnum))
   let sl ← readSmps bs ppSmp 0
